@@ -807,7 +807,7 @@ pub fn run_zst(seed: u64, threads: usize, prop_cases: u32, max_ops: usize) -> (Z
                 let mut runner = TestRunner::new_with_rng(cfg, TestRng::from_seed(RngAlgorithm::ChaCha, &sb));
                 let st = std::cell::RefCell::new(ZStats::default());
                 let failed = std::cell::Cell::new(false);
-                let res = runner.run(&zcase_strategy(max_ops), |c| match run_zcase_with_reference(&c) {
+                let res = runner.run(&zcase_strategy(max_ops), |c| match { crate::watch::tick(); run_zcase_with_reference(&c) } {
                     Ok(f) => {
                         if !failed.get() {
                             st.borrow_mut().note(&c, f);
